@@ -944,10 +944,9 @@ Lemma civil_from_days_sound n : 1 <= n ->
   1 <= y /\ 1 <= m <= 12 /\ 1 <= d <= days_in_month y m /\ days_from_civil y m d = n.
 Proof.
   intros Hn.
-  set (a := (n - 1) / 146097). set (r := (n - 1) mod 146097).
-  assert (n = (r + 1) + 146097 * a) as -> by (unfold a, r; lia).
-  assert (0 <= a) by (unfold a; lia).
-  assert (1 <= r + 1 < 1 + Z.of_nat (N.to_nat 146097)) as Hr by (unfold r; lia).
+  assert (exists a r, 0 <= a /\ 0 <= r < 146097 /\ n = (r + 1) + 146097 * a) as [a [r [Ha [Hr0 ->]]]].
+  { exists ((n - 1) / 146097), ((n - 1) mod 146097). lia. }
+  assert (1 <= r + 1 < 1 + Z.of_nat (N.to_nat 146097)) as Hr by lia.
   pose proof (forall_range civil_check 1 _ civil_cycle_sweep (r + 1) Hr) as C.
   rewrite civil_from_days_period. unfold civil_check in C.
   destruct (civil_from_days (r + 1)) as [[y m] d].
